@@ -239,6 +239,36 @@ def main(ctx, replay=None):
                                           f"multiplied by its own positive factor (same fractions)", {"scenario": sc_run, "key": k, "strain": strain, "factors": fac},
                                           {"scenario": sc_run, "clause": "fractions_only"})
                             break
+        # (5c) whole numbers in an integer-typed array are the same strains as the same numbers in a float array;
+        # (5d) a task list that has served one strain field and is resolved again with ANOTHER one answers like a fresh list
+        if sc_run in ("generic", "uniaxial", "isotropic"):
+            full = [f"{i}{j}" for i, j in ALLKEYS]
+            pat = {"generic": (3, 4, 5), "uniaxial": (2, 2, 5), "isotropic": (1, 1, 1)}[sc_run]
+            ints = numpy.array([pat] * ntv, dtype=int) * rng.integers(1, 4, (ntv, 1))
+            other = numpy.array([(3.0, 4.0, 5.0)] * ntv) if sc_run == "isotropic" else numpy.ones((ntv, 3))
+            _e, _t, (iso_f, _a), info_f = run(full, strain=ints.astype(float))
+            _e, _t, (iso_i, _a), info_i = run(full, strain=ints)
+            _e, _t, (iso_o, _a), info_o = run(full, strain=other)
+            run(full)                                                   # the list now holds the scenario's own field ...
+            _e, _t, (iso_r, _a), info_r = run(full, strain=other, reuse=True)       # ... and is resolved again with another one
+            ctx.count({"sc": sc_run, "integer_typed_strain": True})
+            ctx.count({"sc": sc_run, "reused_list_other_strain": True})
+            for name, clause, ref, got, info_ref, info_got, what in (
+                    ("whole-number strains in an integer-typed array", "integer_strain", iso_f, iso_i, info_f, info_i, ints),
+                    ("a used task list resolved again with another strain field", "reused_other_strain", iso_o, iso_r, info_o, info_r, other)):
+                if info_ref["error"] is not None or ref is None:
+                    continue
+                if info_got["error"] is not None or got is None:
+                    ctx.violation(f"[{sc_run}] {name}: resolve/calculate raised {info_got['error']!r}", {"scenario": sc_run, "strain": what},
+                                  {"scenario": sc_run, "clause": "complete_raises"})
+                    continue
+                for k in full:
+                    ck = c_(int(k[0]), int(k[1]))
+                    if ck not in got or not numpy.all(numpy.isfinite(numpy.asarray(got[ck], dtype=float))) or relerr(got[ck], ref[ck], tensor_scale) > 1e-9:
+                        ctx.violation(f"[{sc_run}] {name}: c{k} differs from the same strains given to a fresh list as floats "
+                                      f"(rel. {relerr(got[ck], ref[ck], tensor_scale) if ck in got else float('nan'):.2e})",
+                                      {"scenario": sc_run, "key": k, "strain": what, "first_strain": strain}, {"scenario": sc_run, "clause": clause})
+                        break
         # (6) axis relabelling, on the full tensor
         if sc_run in sched.SCENARIOS:
             check_permutations(ctx, rng, sc, insts[sc], case, strain, run)
